@@ -237,6 +237,9 @@ def jobs(tier, seed):
         out.append(dict(dict(base, ck="none", vk="ragged", lazy_value=True), **rk))
         out.append(dict(dict(base, ck="slice", cstep=None, vk="ragged", lazy_value=True, R=2), **rk))
     out.append(dict(base, ck="none", vk="ragged_bad", lazy_value=True, rk="all", R=2))
+    for ck, extra in (("int", {}), ("slice", dict(cstep=None)), ("slice", dict(cstep=-1))):
+        for vk in ("scalar", "flat"):
+            out.append(dict(dict(base, ck=ck, vk=vk, rk="ellipsis", R=2), **extra))          # ra[..., cols] = value
     out.append(dict(colbase, R=4, L=2 if q else 3, ck="none", rk="list", k=4, B=4))
     out.append(dict(base, R=4, L=2, ck="slice", cstep=None, vk="ragged", rk="list", k=3, B=4))
     js = [dict(h="C03.setitem", p=p) for p in out]
